@@ -18,6 +18,18 @@ What is proved (for all inputs):
   mj_checkAcc `mj_forward` is re-run after the reset; the reported index is the first bad one in scan order; a
   vector without bad scanned entries is left alone.  mj_checkPos scans every index; mj_checkVel / mj_checkAcc scan
   every index unless sleeping is enabled and some dof is asleep (then only `dof_awake_ind[0..nv_awake)`).
+* `scan_sites_cover`, `scan_sites_complete`, `covers_of_wellBounded`, `wellBounded_of_covers`: the table of bad-value scan
+  loops regenerated from engine_forward.c (`Gen.C30Scans.sites`: mj_checkPos, mj_checkVel, mj_checkAcc and the control
+  validation inside mj_fwdActuation) is exactly these four loops, nothing was refused, and every one of them visits
+  EVERY index below the declared length of its array for ALL values of the model dimensions (m->nq, m->nv, m->nu,
+  m->nactuator, ... are independent numbers: nq ≠ nv with ball / free joints, nu ≠ nactuator with multi-input
+  actuators).  The criterion (counter starts at 0, bound textually the declared length) is proved equivalent to the
+  semantic statement, so a loop bounded by another dimension breaks `scan_sites_cover`.
+* `ctrlScan_catches`, `ctrlScan_clean`, `gen_ctrl_scan_catches`, `gen_ctrl_site_exists`, `ctrlScan_misses_beyond_bound`:
+  the control validation of mj_fwdActuation on the local copy of the controls, with the bound and the zeroed count of
+  the generated site evaluated under an arbitrary size assignment: a bad entry at any index of the nu controls raises
+  the warning with the first bad index and replaces ALL controls by zero; clean controls are used as they are; and
+  (sharpness) a loop that stops earlier lets a bad control behind its bound through, unreported.
 * `step_check_order`: in the generated skeleton of mj_step the first four stages are mj_checkPos, mj_checkVel,
   mj_forward, mj_checkAcc (kernel-evaluated on the generated program).
 * `post_step_finite_partial`: if no check fires, the explicit Euler update of a scalar joint stays far below the
@@ -27,6 +39,7 @@ What is proved (for all inputs):
 import MjProof.Lemmas.BadCheck
 import MjProof.Lemmas.RealNum
 import MjProof.Gen.Kernels
+import MjProof.Gen.C30Scans
 import Mathlib.Tactic.Ring
 import Mathlib.Tactic.Linarith
 import Mathlib.Tactic.NormNum
@@ -295,6 +308,156 @@ example :
     (check .acc c d).number = 7 ∧ (check .acc c d).vec = #v[1, 50, 2] := by decide
 
 end Logic
+
+/-! ### which indices the scan loops visit, for every model size
+
+`Gen.C30Scans.sites` is regenerated from engine_forward.c by translate/c30_scans.py on every run. -/
+section Sites
+open Gen.C30Scans
+
+theorem covers_of_wellBounded (s : ScanSite) (h : s.wellBounded = true) : s.covers := by
+  intro sz i hi
+  simp only [ScanSite.wellBounded, Bool.and_eq_true, beq_iff_eq] at h
+  obtain ⟨h0, hb⟩ := h
+  simp only [ScanSite.visited, List.mem_range'_1, h0, hb]
+  omega
+
+theorem wellBounded_of_covers (s : ScanSite) (h : s.covers) : s.wellBounded = true := by
+  simp only [ScanSite.wellBounded, Bool.and_eq_true, beq_iff_eq]
+  constructor
+  · have := h (fun _ => 1) 0 (by simp)
+    simp only [ScanSite.visited, List.mem_range'_1] at this
+    omega
+  · by_cases hne : s.bound = s.declared
+    · exact hne
+    exfalso
+    have := h (fun t => if t = s.declared then 1 else 0) 0 (by simp)
+    simp only [ScanSite.visited, List.mem_range'_1, hne, if_false] at this
+    omega
+
+theorem scan_sites_wellBounded : ∀ s ∈ sites, s.wellBounded = true := by decide
+
+theorem scan_sites_cover : ∀ s ∈ sites, s.covers := fun s hs => covers_of_wellBounded s (scan_sites_wellBounded s hs)
+
+theorem scan_sites_complete :
+    sites.map (fun s => (s.func, s.array, s.warn)) =
+      [("mj_checkPos", "d->qpos", "mjWARN_BADQPOS"), ("mj_checkVel", "d->qvel", "mjWARN_BADQVEL"),
+       ("mj_checkAcc", "d->qacc", "mjWARN_BADQACC"), ("mj_fwdActuation", "local ctrl", "mjWARN_BADCTRL")] ∧
+    refused = [] := by decide
+end Sites
+
+section Ctrl
+variable {α : Type}
+
+/-- the predicate the loop evaluates at index `i` -/
+theorem firstBadBelow_spec (isBad : α → Bool) (v : List α) (bound k : Nat) (h : firstBadBelow isBad v bound = some k) :
+    k < bound ∧ (∃ hk : k < v.length, isBad v[k] = true) ∧
+    ∀ j, j < k → ∀ hj : j < v.length, isBad v[j] = false := by
+  unfold firstBadBelow at h
+  obtain ⟨hp, idx, hidx, hget, hlt⟩ := List.find?_eq_some_iff_getElem.1 h
+  simp only [List.getElem_range] at hget
+  subst hget
+  refine ⟨by simpa using hidx, ?_, ?_⟩
+  · cases hv : v[idx]? with
+    | none => simp [hv] at hp
+    | some x =>
+      obtain ⟨hk, hx⟩ := List.getElem?_eq_some_iff.1 hv
+      exact ⟨hk, by simpa [hv, hx] using hp⟩
+  · intro j hj hjl
+    have := hlt j hj
+    simpa [List.getElem_range, List.getElem?_eq_getElem hjl] using this
+
+theorem firstBadBelow_isSome (isBad : α → Bool) (v : List α) (bound i : Nat) (hib : i < bound) (hi : i < v.length)
+    (hbad : isBad v[i] = true) : ∃ k, firstBadBelow isBad v bound = some k ∧ k ≤ i := by
+  cases hf : firstBadBelow isBad v bound with
+  | none =>
+    unfold firstBadBelow at hf
+    have := List.find?_eq_none.1 hf i (List.mem_range.2 hib)
+    simp [List.getElem?_eq_getElem hi, hbad] at this
+  | some k =>
+    refine ⟨k, rfl, ?_⟩
+    obtain ⟨_, _, hlt⟩ := firstBadBelow_spec isBad v bound k hf
+    by_cases hki : k ≤ i
+    · exact hki
+    · have := hlt i (by omega) hi
+      simp [hbad] at this
+
+theorem zeroFirst_all (zero : α) (v : List α) : zeroFirst zero v.length v = List.replicate v.length zero := by
+  apply List.ext_getElem
+  · simp [zeroFirst]
+  · intro i h1 h2
+    simp only [zeroFirst, List.length_mapIdx] at h1
+    simp [zeroFirst, h1]
+
+/-- when the loop bound and the zeroed count are the length of the array, a bad entry at ANY index fires the warning
+    (reported index = first bad entry) and ALL controls are replaced by zero -/
+theorem ctrlScan_catches (isBad : α → Bool) (zero : α) (v : List α) (i : Nat) (hi : i < v.length)
+    (hbad : isBad v[i] = true) :
+    ∃ k, (ctrlScan isBad zero v.length v.length v).fired = some k ∧ k ≤ i ∧
+      (∃ hk : k < v.length, isBad v[k] = true) ∧ (∀ j, j < k → ∀ hj : j < v.length, isBad v[j] = false) ∧
+      (ctrlScan isBad zero v.length v.length v).ctrl = List.replicate v.length zero ∧
+      (ctrlScan isBad zero v.length v.length v).oob = false := by
+  obtain ⟨k, hk, hki⟩ := firstBadBelow_isSome isBad v v.length i hi hi hbad
+  obtain ⟨hkb, hkbad, hfirst⟩ := firstBadBelow_spec isBad v v.length k hk
+  refine ⟨k, ?_, hki, hkbad, hfirst, ?_, ?_⟩
+  · simp [ctrlScan, hk]
+  · simp [ctrlScan, hk, zeroFirst_all]
+  · simp [ctrlScan, hk]; omega
+
+/-- no bad entry: no warning, the controls are used as they are -/
+theorem ctrlScan_clean (isBad : α → Bool) (zero : α) (v : List α) (bound zc : Nat) (hb : bound ≤ v.length)
+    (h : ∀ i, ∀ hi : i < v.length, isBad v[i] = false) :
+    ctrlScan isBad zero bound zc v = { fired := none, ctrl := v, oob := false } := by
+  have : firstBadBelow isBad v bound = none := by
+    unfold firstBadBelow
+    rw [List.find?_eq_none]
+    intro j hj
+    have hjb : j < bound := List.mem_range.1 hj
+    have hjl : j < v.length := by omega
+    simp [List.getElem?_eq_getElem hjl, h j hjl]
+  simp [ctrlScan, this]; omega
+
+/-- sharpness: a loop that stops below the length misses a bad entry behind its bound: no warning, and the bad value
+    stays in the controls the actuation stage goes on to use -/
+theorem ctrlScan_misses_beyond_bound (isBad : α → Bool) (zero : α) (v : List α) (bound zc i : Nat)
+    (hb : bound ≤ i) (hi : i < v.length) (hbad : isBad v[i] = true)
+    (hclean : ∀ j, j < bound → ∀ hj : j < v.length, isBad v[j] = false) :
+    (ctrlScan isBad zero bound zc v).fired = none ∧
+    ∃ h : i < (ctrlScan isBad zero bound zc v).ctrl.length, isBad ((ctrlScan isBad zero bound zc v).ctrl[i]) = true := by
+  have : firstBadBelow isBad v bound = none := by
+    unfold firstBadBelow
+    rw [List.find?_eq_none]
+    intro j hj
+    have hjb : j < bound := List.mem_range.1 hj
+    have hjl : j < v.length := by omega
+    simp [List.getElem?_eq_getElem hjl, hclean j hjb hjl]
+  simp [ctrlScan, this, hi, hbad]
+
+open Gen.C30Scans in
+/-- the control validation that is in the source (generated site of mj_fwdActuation), for EVERY assignment of the model
+    dimensions (nu and nactuator independent) and every local control vector of the declared length: a bad entry at any
+    index is reported and all controls are zeroed -/
+theorem gen_ctrl_scan_catches (s : ScanSite) (hs : s ∈ sites) (harr : s.array = "local ctrl")
+    (sz : Sizes) (isBad : α → Bool) (zero : α) (v : List α) (hv : v.length = sz s.declared)
+    (i : Nat) (hi : i < v.length) (hbad : isBad v[i] = true) :
+    ∃ k, (s.runCtrl sz isBad zero v).fired = some k ∧ k ≤ i ∧
+      (s.runCtrl sz isBad zero v).ctrl = List.replicate v.length zero ∧ (s.runCtrl sz isBad zero v).oob = false := by
+  have key : ∀ s ∈ sites, s.array = "local ctrl" → s.bound = s.declared ∧ s.zeroCount = some s.declared := by decide
+  obtain ⟨hb, hz⟩ := key s hs harr
+  obtain ⟨k, h1, h2, _, _, h5, h6⟩ := ctrlScan_catches isBad zero v i hi hbad
+  refine ⟨k, ?_, h2, ?_, ?_⟩ <;> simp only [ScanSite.runCtrl, hb, hz, ← hv] <;> assumption
+
+open Gen.C30Scans in
+/-- such a site exists (the theorem above is not vacuous) -/
+theorem gen_ctrl_site_exists : ∃ s ∈ sites, s.array = "local ctrl" ∧ s.func = "mj_fwdActuation" ∧
+    s.warn = "mjWARN_BADCTRL" ∧ s.exit = "break" := by decide
+
+example : (ctrlScan (fun x : Nat => decide (10 < x)) 0 4 4 [1, 2, 50, 3]).fired = some 2 ∧
+    (ctrlScan (fun x : Nat => decide (10 < x)) 0 4 4 [1, 2, 50, 3]).ctrl = [0, 0, 0, 0] := by decide
+/-- two actuators, four controls, loop bound 2 (the number of actuators): the bad control 3 is missed -/
+example : (ctrlScan (fun x : Nat => decide (10 < x)) 0 2 4 [1, 2, 3, 50]).fired = none ∧
+    (ctrlScan (fun x : Nat => decide (10 < x)) 0 2 4 [1, 2, 3, 50]).ctrl = [1, 2, 3, 50] := by decide
+end Ctrl
 
 /-! ### mj_step -/
 
